@@ -223,7 +223,7 @@ fn siblings(n: usize) -> Vec<RV> {
     (0..n).map(|i| kinds[i % kinds.len()].clone()).collect()
 }
 
-fn long_values() -> Vec<RV> {
+pub fn long_values() -> Vec<RV> {
     let n = 10_000usize;
     let atoms = a12();
     let elems: Vec<RV> = (0..n).map(|i| atoms[i % atoms.len()].clone()).collect();
